@@ -41,7 +41,7 @@ def features(prog):
 def relevant(prop, prog):
     """Does a recorded run of this program exercise the property?"""
     cut, neg, prt = features(prog)
-    return {"C01": not cut and not neg, "C02": cut, "C03": neg, "C04": prt, "C05": True}.get(prop, False)
+    return {"C01": not cut and not neg, "C02": cut, "C03": neg, "C04": prt, "C05": True, "C10": True}.get(prop, False)
 
 
 def classify(rej, lines):
@@ -102,6 +102,8 @@ def validate(trace_path, wd, timeout, module="TraceSolver", cfg=None):
             res["validated"] = tuple(int(x) for x in m)       # TraceSolver: runs accepted, runs rejected, trace lines
             if module == "TraceSolver" and int(m[1]) == 0:
                 res["accepted"] = (int(m[0]), int(m[2]))
+        elif line.startswith('<<"IDS"'):
+            res.setdefault("ids", []).append(line.strip())
         elif line.startswith('<<"REJECTED"'):
             res["rejections"].append(line.strip())
             if res["rejected"] is None:
@@ -222,6 +224,20 @@ def run(jobname, job, prop, tier, seed, wd, acc):
                                "obs": {"prop": prop, "kind": "trace-rejected",
                                        "detail": "the recorded execution is not a behaviour of Solver.tla: at trace line %d the engine logged %s while the model was at %s (%s)"
                                                  % (rej["at"], ev[:200], rej["model"], "reply differs in " + rej["retdiff"] if rej["retdiff"] else "event mismatch")}})
+    for line in res.get("ids", []):
+        m = re.search(r"at \|-> (\d+)", line); at = int(m.group(1)) if m else 0
+        prog = None
+        for i in range(min(at, len(lines)) - 1, -1, -1):
+            if lines[i].startswith('{"e":"program"'):
+                prog = json.loads(lines[i]); break
+        if prog is not None:
+            rejected_runs.add(prog.get("run"))
+        if prop == "C10":
+            ev = lines[at - 1] if 0 < at <= len(lines) else ""
+            acc["bad"].append({"job": jobname,
+                               "case": {"t": "trace", "prog": prog and prog["prog"], "query": prog and prog["query"], "trace_file": trace, "line": at},
+                               "obs": {"prop": "C10", "kind": "trace-ids",
+                                       "detail": "a clause was renamed in the middle of a search with fewer fresh ids than it has variable names: %s (%s)" % (ev[:200], line[:200])}})
     mine = [pg for pg in progs if relevant(prop, pg["prog"]) and pg.get("run") not in rejected_runs]
     acc["evaluations"] += len(mine)
     acc["kinds"]["%s:trace-accepted" % prop] += len(mine)
@@ -250,7 +266,11 @@ def replay(case, wd):
     res = validate(trace, wd, 600)
     if res["violated"] or "validated" not in res:
         raise vcheck.ToolError("trace validation of the replay ended without a verdict (%s)" % res["out"])
-    return [parse_rejected(l) for l in res["rejections"]]
+    out = [parse_rejected(l) for l in res["rejections"]]
+    for l in res.get("ids", []):
+        m = re.search(r"at \|-> (\d+)", l)
+        out.append({"at": int(m.group(1)) if m else 0, "model": "ids: " + l[:200]})
+    return out
 
 
 def selftest():
